@@ -307,14 +307,14 @@ Lemma enp_prefix_candidate b k :
   enp_in_range -> enp_flt_hyp -> (k <= length (decode b))%nat ->
   (en_prefix_candidate rtl flt b (Z.of_nat (boundary b k)) = Ok (0, false) /\
    search (runes_of b) (Z.of_nat k) = None) \/
-  (exists k', (k' <= length (decode b))%nat /\
+  (exists k', (k <= k' <= length (decode b))%nat /\
      en_prefix_candidate rtl flt b (Z.of_nat (boundary b k)) = Ok (Z.of_nat (boundary b k'), true) /\
      search (runes_of b) (Z.of_nat k') = search (runes_of b) (Z.of_nat k)).
 Proof.
   intros HR HH Hk. unfold en_prefix_candidate. unfold enp_flt_hyp in HH.
-  assert (Hsame : exists k', (k' <= length (decode b))%nat /\
+  assert (Hsame : exists k', (k <= k' <= length (decode b))%nat /\
             Ok (Z.of_nat (boundary b k), true) = Ok (Z.of_nat (boundary b k'), true) /\
-            search (runes_of b) (Z.of_nat k') = search (runes_of b) (Z.of_nat k)) by (exists k; auto).
+            search (runes_of b) (Z.of_nat k') = search (runes_of b) (Z.of_nat k)) by (exists k; split; [lia|auto]).
   destruct flt as [f|]; [|right; exact Hsame].
   destruct rtl eqn:Ertl; [right; exact Hsame|].
   destruct HH as [HH|HH]; [congruence|].
@@ -324,9 +324,9 @@ Proof.
     destruct ((c <? Z.of_nat (boundary b k)) || (zlen b <? c) || negb (en_is_boundary b c)) eqn:E; [exact Hsame|].
     apply orb_false_iff in E. destruct E as [E E3]. apply orb_false_iff in E. destruct E as [E1 E2].
     apply Bool.negb_false_iff in E3. apply enb_is_boundary_iff in E3. destruct E3 as [k' [Hk' Hc]].
-    exists k'. split; [exact Hk'|]. rewrite Hc. split; [reflexivity|].
-    apply (HC eq_refl k'); [|exact Hc]. split; [|exact Hk'].
-    apply (enb_boundary_inj_le b); lia.
+    assert (Hkk : (k <= k')%nat) by (apply (enb_boundary_inj_le b); lia).
+    exists k'. split; [lia|]. rewrite Hc. split; [reflexivity|].
+    apply (HC eq_refl k'); [lia|exact Hc].
   - left. split; [reflexivity|apply HB; reflexivity].
 Qed.
 
@@ -379,7 +379,7 @@ Proof.
   rewrite enb_is_boundary_at. rewrite Bool.andb_false_r.
   replace (Z.of_nat (boundary b k) <? 0) with false by lia.
   rewrite (enp_run_at b k Hk).
-  destruct (enp_prefix_candidate b k HR HH Hk) as [[Hc Hs]|(k' & Hk' & Hc & Hs)]; rewrite Hc; cbn [bind negb].
+  destruct (enp_prefix_candidate b k HR HH Hk) as [[Hc Hs]|(k' & [Hkk' Hk'] & Hc & Hs)]; rewrite Hc; cbn [bind negb].
   - rewrite Hs. reflexivity.
   - rewrite (enp_get_runes_and_start b k' Hk'). replace (Z.of_nat k' =? -1) with false by lia.
     rewrite (enp_run_at b k' Hk'), Hs. reflexivity.
@@ -398,7 +398,7 @@ Proof.
   assert (Hrun : en_run M search rtl i (runes_of b) = Ok (search (runes_of b) (Z.of_nat (enp_default_start b)))).
   { rewrite <- enp_run_default. unfold en_run. replace (i <? 0) with true by lia. reflexivity. }
   rewrite Hrun.
-  destruct (enp_prefix_candidate b _ HR HH Hdl) as [[Hc Hs]|(k' & Hk' & Hc & Hs)]; rewrite Hc; cbn [bind negb].
+  destruct (enp_prefix_candidate b _ HR HH Hdl) as [[Hc Hs]|(k' & [Hkk' Hk'] & Hc & Hs)]; rewrite Hc; cbn [bind negb].
   - rewrite Hs. reflexivity.
   - rewrite (enp_get_runes_and_start b k' Hk'). replace (Z.of_nat k' =? -1) with false by lia.
     rewrite (enp_run_at b k' Hk'), Hs. reflexivity.
@@ -425,7 +425,7 @@ Proof.
   replace (zlen b <? -1) with false by (pose proof (enb_zlen_nonneg b); lia).
   cbn [Z.leb Z.compare andb Z.ltb].
   destruct (enp_default_boundary b) as [Hd Hdl]. rewrite Hd. rewrite enp_run_default.
-  destruct (enp_prefix_candidate b _ HR HH Hdl) as [[Hc Hs]|(k' & Hk' & Hc & Hs)]; rewrite Hc; cbn [bind negb].
+  destruct (enp_prefix_candidate b _ HR HH Hdl) as [[Hc Hs]|(k' & [Hkk' Hk'] & Hc & Hs)]; rewrite Hc; cbn [bind negb].
   - rewrite Hs. reflexivity.
   - rewrite (enp_get_runes_and_start b k' Hk'). replace (Z.of_nat k' <? 0) with false by lia.
     rewrite (enp_run_at b k' Hk'), Hs. reflexivity.
@@ -447,7 +447,7 @@ Proof.
   replace (zlen b <? -1) with false by (pose proof (enb_zlen_nonneg b); lia).
   cbn [Z.leb Z.compare andb Z.ltb].
   destruct (enp_default_boundary b) as [Hd Hdl]. rewrite Hd.
-  destruct (enp_prefix_candidate b _ HR HH Hdl) as [[Hc Hs]|(k' & Hk' & Hc & Hs)]; rewrite Hc; cbn [bind negb].
+  destruct (enp_prefix_candidate b _ HR HH Hdl) as [[Hc Hs]|(k' & [Hkk' Hk'] & Hc & Hs)]; rewrite Hc; cbn [bind negb].
   - left. split; [reflexivity|exact Hs].
   - right. exists k'. split; [exact Hk'|]. split; [|exact Hs].
     destruct (Z.of_nat (boundary b k') =? 0) eqn:E0.
@@ -575,7 +575,7 @@ Theorem enp_prefix_candidate_sound
   enp_in_range M m_index search -> enp_flt_hyp M m_index search rtl flt -> (k <= length (decode b))%nat ->
   (en_prefix_candidate rtl flt b (Z.of_nat (boundary b k)) = Ok (0, false) /\
    search (runes_of b) (Z.of_nat k) = None) \/
-  (exists k', (k' <= length (decode b))%nat /\
+  (exists k', (k <= k' <= length (decode b))%nat /\
      en_prefix_candidate rtl flt b (Z.of_nat (boundary b k)) = Ok (Z.of_nat (boundary b k'), true) /\
      search (runes_of b) (Z.of_nat k') = search (runes_of b) (Z.of_nat k)).
 Proof. apply enp_prefix_candidate. Qed.
